@@ -4,6 +4,8 @@ A spec is one of
   {"k": "rand", "seed": S, "allow": [...], "domain": bool, "mut": [...]}   shared generator, then mutations
   {"k": "ex", "i": n, "compress": None|"contiguous"|"indexed"|"indexed_contiguous", "mut": [...]}
   {"k": "simple", "shape": [...], "dtype": "f8", "ncvar": ..., ...}          see `simple_field`
+  {"k": "gathered", "seed": S}      compression by gathering, built by hand (Field.compress does not offer it)
+  {"k": "dsg3", "seed": S}          a 3-d field compressed as an indexed contiguous ragged array
 
 Mutations (applied in order; indices are taken modulo the number of targets, so every mutation
 is always applicable):
@@ -14,6 +16,8 @@ is always applicable):
   ["bdim", i, name]    nc_set_dimension(name) on the i-th bounds
   ["unlim", i]         nc_set_unlimited(True) on the i-th domain axis
   ["ext", i, name]     the i-th cell measure becomes external (named `name`, not written to the file)
+  ["ftparam", name, v] the first parametric vertical coordinate reference gets the scalar parameter `name` = v
+                        (written as a scalar variable named in formula_terms)
 """
 import random
 
@@ -87,6 +91,12 @@ def apply_mutations(f, muts):
             bs = bounds_things(f)
             if bs:
                 bs[m[1] % len(bs)][1].nc_set_dimension(m[2])
+        elif op == "ftparam":
+            for r in f.coordinate_references(todict=True).values():
+                cc = r.coordinate_conversion
+                if cc.get_parameter("standard_name", None) is not None:
+                    cc.set_parameter(m[1], cfdm().Data(float(m[2]), "Pa"))
+                    break
         else:
             raise ValueError(op)
     return f
@@ -155,6 +165,58 @@ def simple_field(spec):
     return f
 
 
+def _dimcoords(f, axes, sizes, names):
+    C = cfdm()
+    for a, n, (sn, u) in zip(axes, sizes, names):
+        c = C.DimensionCoordinate(properties={"standard_name": sn, "units": u})
+        c.set_data(C.Data(np.arange(n, dtype="f8") * 1.5 + 1.0))
+        f.set_construct(c, axes=[a])
+
+
+def gathered_field(rng):
+    """A field whose data are compressed by gathering over its last two (of two or three) axes."""
+    C = cfdm()
+    lead = rng.choice([[], [rng.randint(1, 3)]])
+    ny, nx = rng.randint(2, 4), rng.randint(2, 3)
+    shape = lead + [ny, nx]
+    npts = rng.randint(1, ny * nx)
+    lst = sorted(rng.sample(range(ny * nx), npts))
+    f = C.Field(properties={"standard_name": "air_temperature", "units": "K"})
+    axes = [f.set_construct(C.DomainAxis(n)) for n in shape]
+    comp = np.arange(int(np.prod(lead + [npts])), dtype="f8").reshape(lead + [npts]) + 0.5
+    lv = C.List(data=C.Data(np.array(lst)))
+    if rng.random() < 0.5:
+        lv.nc_set_variable(rng.choice(["landpoint", "list", "lat"]))
+    ga = C.GatheredArray(compressed_array=C.Data(comp), shape=tuple(shape), compressed_dimensions={len(lead): (len(lead), len(lead) + 1)},
+                         list_variable=lv)
+    f.set_data(C.Data(ga), axes=axes)
+    names = ([("time", "days since 2000-01-01")] if lead else []) + [("latitude", "degrees_north"), ("longitude", "degrees_east")]
+    _dimcoords(f, axes, shape, names)
+    if rng.random() < 0.6:
+        f.set_construct(C.CellMethod(axes=[rng.choice(axes)], method="mean"))
+    return f
+
+
+def dsg3_field(rng):
+    """station x profile x level, stored as an indexed contiguous ragged array."""
+    C = cfdm()
+    ns, npf, nz = rng.randint(1, 3), rng.randint(1, 3), rng.randint(2, 4)
+    arr = np.ma.masked_all((ns, npf, nz))
+    k = 0.0
+    for i in range(ns):
+        for j in range(rng.randint(1, npf)):
+            n = rng.randint(1, nz)
+            arr[i, j, :n] = np.arange(n) + k
+            k += 10
+    f = C.Field(properties={"standard_name": "air_temperature", "units": "K", "featureType": "timeSeriesProfile"})
+    axes = [f.set_construct(C.DomainAxis(n)) for n in (ns, npf, nz)]
+    f.set_data(C.Data(arr), axes=axes)
+    c = C.AuxiliaryCoordinate(properties={"long_name": "station height", "units": "m"})
+    c.set_data(C.Data(np.arange(ns, dtype="f8") + 100))
+    f.set_construct(c, axes=[axes[0]])
+    return f.compress("indexed_contiguous")
+
+
 def build(spec):
     C = cfdm()
     k = spec["k"]
@@ -169,6 +231,10 @@ def build(spec):
             f = f.compress(spec["compress"])
     elif k == "simple":
         f = simple_field(spec)
+    elif k == "gathered":
+        f = gathered_field(random.Random(spec["seed"]))
+    elif k == "dsg3":
+        f = dsg3_field(random.Random(spec["seed"]))
     else:
         raise ValueError(k)
     return apply_mutations(f, spec.get("mut"))
